@@ -588,8 +588,18 @@ class SymReal:
     def __rsub__(self, o): return self._bin(o, lambda a, b: b - a)
     def __mul__(self, o): return self._bin(o, lambda a, b: a * b)
     __rmul__ = __mul__
-    def __truediv__(self, o): return self._bin(o, lambda a, b: a / b)
-    def __rtruediv__(self, o): return self._bin(o, lambda a, b: b / a)
+    def __truediv__(self, o):
+        oe = self._o(o)
+        if oe is None:
+            return NotImplemented
+        return _sym_div(self.e, oe)
+
+    def __rtruediv__(self, o):
+        oe = self._o(o)
+        if oe is None:
+            return NotImplemented
+        return _sym_div(oe, self.e)
+
     def __neg__(self): return SymReal.mk(-self.e)
     def __pos__(self): return self
 
@@ -640,6 +650,28 @@ class SymReal:
 
     def __repr__(self):
         return "SymReal(%s)" % self.e
+
+
+def _sym_div(num, den):
+    """real division; a non-constant divisor is eliminated: q is a fresh real with q * den == num
+    (Python raises ZeroDivisionError for a zero divisor: that path forks off when it is feasible)"""
+    den = z3.simplify(den)
+    if z3.is_rational_value(den):
+        if den.numerator_as_long() == 0:
+            raise ZeroDivisionError("float division by zero")
+        return SymReal.mk(num / den)
+    num = z3.simplify(num) if isinstance(num, z3.ExprRef) else num
+    if ENG.branch(den == 0):
+        raise ZeroDivisionError("float division by zero")
+    # division is a function: the same numerator and denominator give the same quotient variable
+    for (q0, n0, d0) in ENG.memo.get('quotients', []):
+        if d0.eq(den) and isinstance(num, z3.ExprRef) and n0.eq(num):
+            return SymReal(q0)
+    ENG.stats['quotients'] = ENG.stats.get('quotients', 0) + 1
+    q = ENG.fresh_real('quot%d_%d' % (ENG.stats['paths'], ENG.stats['quotients']))
+    ENG.add(q * den == num)
+    ENG.memo.setdefault('quotients', []).append((q, num, den))
+    return SymReal(q)
 
 
 # ---- characters ----------------------------------------------------------
